@@ -507,6 +507,41 @@ func C17Cases(c *Ctx, rng *rand.Rand, spec *LSpec, withDisk bool, nArgv int) ([]
 	return hs, nil
 }
 
+// sharedFunctionWorld: two converters of one package name the same custom function; it is
+// usable for the first (output in the declaring package, an unexported function is fine there)
+// and not for the second (output in ./generated: "must be exported"). The run must fail
+// whatever the first converter made of the function.
+func sharedFunctionWorld(validFirst bool) *World {
+	a, b := "Aconv", "Bconv"
+	if !validFirst {
+		a, b = "Zconv", "Bconv"
+	}
+	src := fmt.Sprintf(`package sharedfn
+
+// goverter:converter
+// goverter:output:file ./same_%[1]s_gen.go
+// goverter:output:package %[3]s/sharedfn
+// goverter:extend extLocal
+type %[1]s interface {
+	Conv(source In) Out
+}
+
+// goverter:converter
+// goverter:extend extLocal
+type %[2]s interface {
+	Conv(source In) Out
+}
+
+func extLocal(v Raw) Cooked { return Cooked(v) }
+
+type Raw int
+type Cooked int
+type In struct{ A Raw }
+type Out struct{ A Cooked }
+`, a, b, DefaultModule)
+	return &World{Name: "shared-custom-function", Module: DefaultModule, Files: map[string]string{"sharedfn/c.go": src}, Patterns: []string{"./sharedfn"}, Tags: []string{"c17-static"}}
+}
+
 // CheckC17 runs the fault enumeration.
 func CheckC17(c *Ctx) (*Outcome, error) {
 	nWorlds, nDisk, nArgv := 24, 8, 6
@@ -566,6 +601,28 @@ func CheckC17(c *Ctx) (*Outcome, error) {
 	if err != nil {
 		return nil, err
 	}
+	// static worlds: one custom function named by two converters, usable for only one of them
+	fs, err := c.RunCases(2, func(i int) ([]*History, error) {
+		w := sharedFunctionWorld(i == 0)
+		var hs []*History
+		for _, pre := range []bool{false, true} {
+			h := &History{World: w, Loc: i}
+			if pre {
+				// over a stale output of the converter that can be generated
+				h.Ops = append(h.Ops, Op{Kind: "write", Label: "StaleOutput", Path: "sharedfn/generated/generated.go", Content: "// Code generated by github.com/jmattheis/goverter, DO NOT EDIT.\n//go:build !goverter\n\npackage generated\n\nfunc stale() {}\n"})
+			}
+			op := genOp(&GenSpec{Expect: "fail", Plan: planIdentity()})
+			op.Label = fmt.Sprintf("shared-custom-function(valid-first=%v)", i == 0)
+			h.Ops = append(h.Ops, op)
+			hs = append(hs, h)
+		}
+		c.Stats.Add("worlds", 1)
+		return hs, nil
+	}, JudgeC17, note)
+	if err != nil {
+		return nil, err
+	}
+	found = append(found, fs...)
 	out, err := c.finish("C17", "fault_enumeration", found, JudgeC17, func(c *Ctx, f Found) string {
 		lab := ""
 		if f.V.OpIndex < len(f.H.Ops) {
